@@ -224,6 +224,99 @@ def spec_compare(src, rec):
     return "either", None
 
 
+# ------------------------------------------------------------------------------- bridge tie
+RENAME = {"x": "v0", "y": "v1", "z": "v2", "w": "v3", "n": "v4", "c1": "v5", "c2": "v6"}
+
+
+def bridge_variant(src):
+    """A generated program of the while/if fragment rewritten into C03's PyAst vocabulary
+    (variables v<k>, integer literals only); None when it uses for / nested defs."""
+    import ast
+    import re
+    tree = ast.parse(src)
+    for n in ast.walk(tree):
+        if isinstance(n, ast.For) or (isinstance(n, ast.FunctionDef) and n.name != "f") or isinstance(n, ast.Call):
+            return None
+    out = re.sub(r"\b(x|y|z|w|n|c1|c2)\b", lambda m: RENAME[m.group(1)], src)
+    return out.replace("1.5", "7")
+
+
+def bridge_tie(ctx, sources, limit):
+    """C03's builder model read as an event CFG (ecfg_of (build p), evaluated in Coq) against the
+    event CFG impl_check.py extracts from the REAL builder's CFG, block by block."""
+    sys.path.insert(0, str(HERE.parent / "C03"))
+    import pyast as c03
+    cases = []
+    for src in sources:
+        v = bridge_variant(src)
+        if v is None:
+            continue
+        try:
+            term = c03.parse_program(v)
+            coq = c03.stmts_coq(term)
+        except Exception:  # noqa: BLE001  (outside PyAst)
+            continue
+        cases.append((v, coq))
+        if len(cases) >= limit:
+            break
+    st = {"cases": len(cases), "in_cf_fragment": 0, "blocks_compared": 0, "differences": 0}
+    if not cases:
+        return st
+    recs = run_impl(ctx, [{"id": f"bridge/{i}", "src": v} for i, (v, _) in enumerate(cases)])
+    files = {}
+    chunk = 60
+    for c in range(0, len(cases), chunk):
+        body = ["From Coq Require Import ZArith List. Import ListNotations.",
+                "From V.C03 Require Import PyAst.", "From V.C08 Require Import ObserveBridge.", "Open Scope Z_scope."]
+        for k, (_, coq) in enumerate(cases[c:c + chunk]):
+            body.append(f"Eval vm_compute in (obs_bridge {coq}).")
+        files[f"br{c // chunk}"] = "\n".join(body) + "\n"
+    outs = ctx.coq_eval_many(files, jobs=8)
+    vals = []
+    for name in sorted(files, key=lambda n: int(n[2:])):
+        vals += vlib.parse_coq_values(outs[name])
+    if len(vals) != len(cases):
+        raise RuntimeError(f"bridge evaluation: {len(vals)} values for {len(cases)} cases")
+    shown = 0
+    for (v, _), r, (ok, cf, blocks) in zip(cases, recs, vals):
+        inst = next((i for i in r["instances"] if i["func"] == "f" and "blocks" in i), None)
+        if inst is None or not ok:
+            if (inst is None) != (not ok):
+                st["differences"] += 1
+                if shown < 3:
+                    shown += 1
+                    ctx.report(f"bridge:{v}", "counterexample", "ecfg_of (C03 build) vs real builder",
+                               {"program": v, "expected": "both build or both fail", "observed": {"model_builds": ok, "real_instance": inst is not None},
+                                "replay": replay_cmd(v)})
+            continue
+        st["in_cf_fragment"] += int(bool(cf))
+        real = []
+        for b in inst["blocks"]:
+            evs = []
+            for e in b["events"]:
+                num = lambda nm: (2 * int(nm[1:]) if nm.startswith("v") and nm[1:].isdigit() else (2 * int(nm[4:]) + 1 if nm.startswith("%tmp") else -1))
+                if e[0] == "use":
+                    evs.append([0, num(e[1]), 0])
+                elif e[2][0] == "copy":
+                    evs.append([2, num(e[1]), num(e[2][1])])
+                else:
+                    evs.append([1, num(e[1]), 0])
+            real.append([b["succ"], b["dsucc"], evs])
+        model = [[list(su), list(ds), [list(t) for t in evs]] for (su, ds, evs) in blocks]
+        st["blocks_compared"] += len(real)
+        if real != model:
+            st["differences"] += 1
+            if shown < 3:
+                shown += 1
+                bad = next((i for i, (a, b) in enumerate(zip(real, model)) if a != b), None)
+                ctx.report(f"bridge:{v}", "counterexample", "ecfg_of (C03 build) vs real builder",
+                           {"program": v, "first_differing_block": bad,
+                            "expected": model[bad] if bad is not None and bad < len(model) else len(model),
+                            "observed": real[bad] if bad is not None and bad < len(real) else len(real),
+                            "replay": replay_cmd(v)})
+    return st
+
+
 # ------------------------------------------------------------------------------- driver
 def run_impl(ctx, progs, jobs=12, batch=34):
     parts = [progs[i:i + batch] for i in range(0, len(progs), batch)]
@@ -403,7 +496,9 @@ def run(ctx) -> int:
         ctx.report(KEY_DEAD, "counterexample", "literal reading of the property (no control-flow path reaches code after a jump)",
                    {"program": dead_dev[0], "expected": "accepted", "observed": dead_dev[1], "replay": replay_cmd(dead_dev[0])})
 
-    T["compare_and_spec"] = round(time.time() - t0, 1)
+    T["compare_and_spec"] = round(time.time() - t0, 1); t0 = time.time()
+    bridge = bridge_tie(ctx, [p["src"] for p in progs if p["group"] == "plain"], 70 if quick else 400)
+    T["bridge_tie"] = round(time.time() - t0, 1)
     gen_sources = [p["src"] for p in progs if p["group"] != "corpus"]
     hist = histo.histogram(gen_sources)
     below = sorted(k for k, v in hist.items() if v["percent"] < 5.0)
@@ -420,7 +515,7 @@ def run(ctx) -> int:
              "non-trivial = check_cfg instance whose CFG has >= 4 basic blocks; distinct = by (program text, instance index)",
         programs=len(recs),
         correspondence=stats, specification=spec_stats, samples=samples,
-        phase_seconds=T,
+        phase_seconds=T, bridge_tie=bridge,
         construct_histogram={"over": f"{len(gen_sources)} generated programs (corpus excluded)", "constructs": hist,
                              "below_5_percent": below},
         cases={"plain": n_plain, "const": n_const, "corpus": len([p for p in progs if p["group"] == "corpus"])},
